@@ -34,7 +34,10 @@ def gen_cl_small(rng, n, limits=False):
             mb = max(mb, -1)
         style = rng.choice(['full', 'short', 'short', 'byte', 'plain'])
         data = rand_bytes(rng, d)
-        if style == 'plain':
+        if rng.random() < 0.12:
+            # crash point: no temporary file can be created while this body is read
+            t = bl.run_real('cl', data, cl, buf, mb, rng=rng, short_p=rng.choice([0.3, 1.0]), ctype=rng.choice(bl.CTYPES), fault=True)
+        elif style == 'plain':
             t = bl.run_real('cl', data, cl, buf, mb, ctype=rng.choice(bl.CTYPES), plain=rng.choice([0, 0, 3, 40]))
         elif style == 'full':
             t = bl.run_real('cl', data, cl, buf, mb, ctype=rng.choice(bl.CTYPES))
